@@ -50,7 +50,7 @@ func c17Gen(r *RNG, id string) *Case {
 		c.Set("seq", seq)
 		c.NonTrv = hasAmbig(seq)
 	}
-	if k != "translate" && r.Chance(1, 50) {
+	if k != "translate" && atScale(r, 50) {
 		// scale: a record of thousands of symbols, one in four beyond 64 Ki (one more than a power of two, and well past
 		// it): whatever is done in blocks, through a fixed buffer or with a narrow index must not show
 		n := r.PickInt([]int{1025, 4097, 8193, 16385, 32769, r.Range(1000, 40000)})
@@ -66,7 +66,7 @@ func c17Gen(r *RNG, id string) *Case {
 		c.NonTrv = true
 		c.Tag("long-record")
 	}
-	if k == "translate" && r.Chance(1, 60) {
+	if k == "translate" && atScale(r, 60) {
 		n := 3 * r.PickInt([]int{342, 1366, 4097, r.Range(500, 3000)})
 		c.Set("seq", mutateSeq(r, randSeq(r, n, symACGT, false), iupac15, 1, 50, false))
 		c.NonTrv = true
